@@ -14,9 +14,12 @@ Record case := {
 
 Definition fn_of (l : list bool) (id : nat) : bool := nth id l false.
 
+(* scheduling policy of the reference run: the request source's input never stalls *)
+Definition no_stall (l : loc) : bool := match l with Src _ => true | _ => false end.
+
 Definition final (c : case) : net val loc ev :=
   let len := length (creqs c) in
-  exec (beh (cN c) (fn_of (cfill c)) (fn_of (cwrite c))) (fun _ => 0)
+  exec (beh (cN c) (fn_of (cfill c)) (fn_of (cwrite c))) (fun _ => 0) no_stall
        (rounds (8 * len + 40 + 4 * cN c) (2 * cN c + 8)) (init (cN c) (ccap c) (creqs c)).
 
 Definition wire_ids (l : list ev) : list nat := omap (fun e => match e with EWire id => Some id | _ => None end) l.
